@@ -1323,6 +1323,9 @@ def run(ctx):
         "exactly at e = 1e-5, 1e-9, 1e-12",
         "exact values are computed for controllers x POMDPs whose Cramer determinants fit 30-bit integers (<= 6 unknowns, mostly <= 4); "
         "others are skipped and counted",
+        "label kinds include labels that are falsy in Python (states / actions 0, '', (), frozendict(); observations None, '', (), 0)",
+        "rows of a learnt controller are 'numerically a distribution' inside the window of msdm's own evaluator (1e-5 on sums and on "
+        "negative entries); improve_node_cvxpy is exercised only when the solver it is configured for (ECOS) is installed",
         "learner traces are quantised at 2^-20; the independent float evaluator used for them is validated against the TLA+ oracle on every value case",
         "bounded policy iteration's per-iteration tables are observed through the public improve_node_fn parameter (table at the start of each iteration)",
         "gradient ascent's optimiser trajectory is not judged (only its outputs)",
